@@ -85,7 +85,7 @@ var c20Kinds = []string{"addConn", "removeConn", "select", "selectRemote", "appl
 var c20Weights = []int{6, 5, 6, 3, 8, 5, 4, 3, 3, 4, 3, 3, 2, 3, 3}
 
 func TestC20Program(t *testing.T) {
-	vlib.SetRule("C20", "TestC20Program", "rapid generates a concurrent program: 3-8 goroutines, each a drawn list of operations on ONE real node stack (upstream manager + cluster state + syncer + gossip state + failure detector): upstream connect/disconnect/select, incoming deltas and digest packets about 3 remote nodes (addresses, endpoint counts, deletes, leave markers), digest/delta computation, liveness evaluation, local compaction, expiry sweeps, status reads - with drawn yields; run under the race detector; oracle: no race report, no panic, every goroutine finishes within the watchdog (deadlock), and at quiescence registry == cluster endpoints == gossip endpoint counts == model and the routing table mirrors the gossip view of every remote node; non-trivial = at least two goroutines touch both the registry and the gossip state")
+	vlib.SetRule("C20", "TestC20Program", "rapid generates a concurrent program: 3-8 goroutines, each a drawn list of operations on ONE real node stack (upstream manager + cluster state + syncer + gossip state + failure detector): upstream connect/disconnect/select, incoming deltas and digest packets about 3 remote nodes (addresses, endpoint counts, deletes, leave markers), digest/delta computation, liveness evaluation, local compaction, expiry sweeps, status reads - with drawn yields, and in two fifths of the cases repeated 20 or 400 times by every goroutine; run under the race detector; oracle: no race report, no panic, every goroutine finishes (watchdog: no operation started for 20 s = deadlock), and at quiescence registry == cluster endpoints == gossip endpoint counts == model and the routing table mirrors the gossip view of every remote node; non-trivial = at least two goroutines touch both the registry and the gossip state")
 	vlib.Run(t, "C20", func(c *vlib.Case) {
 		st := newFullStackDelay(c.Dur("notifyDelay", 0, 20*time.Microsecond, 200*time.Microsecond))
 		G := c.Int("goroutines", 3, 8)
@@ -115,6 +115,15 @@ func TestC20Program(t *testing.T) {
 		if touchReg >= 2 && touchGossip >= 2 {
 			c.NonTrivial()
 		}
+		// some programs are run many times over by every goroutine (a hammer): windows
+		// of a few instructions - a lock released and re-taken, a read lock taken twice
+		// - are only hit by a writer after thousands of attempts
+		reps := []int{1, 1, 1, 20, 400}[c.Pick("repetitions", 5)]
+		if reps > 1 {
+			c.Class(fmt.Sprintf("program-repeated-%dx", reps))
+		}
+		c.Stepf("every goroutine runs its program %d time(s)", reps)
+		var progress atomic.Int64
 		var panicked atomic.Value
 		var verMu sync.Mutex
 		remoteVer := map[int]uint64{} // per remote node: next version (monotone across goroutines)
@@ -143,85 +152,96 @@ func TestC20Program(t *testing.T) {
 					}
 				}()
 				var own []*reg
-				for _, o := range progs[g] {
-					for y := 0; y < o.yield; y++ {
-						runtime.Gosched()
-					}
-					rid := fmt.Sprintf("r%d", o.a)
-					raddr := fmt.Sprintf("127.0.0.1:%d", 7100+o.a)
-					ep := simEps[o.a]
-					switch o.kind {
-					case "addConn":
-						r := &reg{u: &fakeUp{ep: ep, id: g*100 + len(own)}}
-						own = append(own, r)
-						regMu.Lock()
-						regs[r.u] = r
-						regMu.Unlock()
-						st.mgr.AddConn(r.u)
-					case "removeConn":
-						if len(own) > 0 {
-							r := own[o.b%len(own)]
-							r.removed.Store(true)
-							st.mgr.RemoveConn(r.u)
+				for rep := 0; rep < reps; rep++ {
+					for _, o := range progs[g] {
+						progress.Add(1)
+						for y := 0; y < o.yield; y++ {
+							runtime.Gosched()
 						}
-					case "select":
-						if u, ok := st.mgr.Select(ep, false); ok && u == nil {
-							panic("select returned ok with nil upstream")
+						rid := fmt.Sprintf("r%d", o.a)
+						raddr := fmt.Sprintf("127.0.0.1:%d", 7100+o.a)
+						ep := simEps[o.a]
+						switch o.kind {
+						case "addConn":
+							r := &reg{u: &fakeUp{ep: ep, id: g*100 + len(own)}}
+							own = append(own, r)
+							regMu.Lock()
+							regs[r.u] = r
+							regMu.Unlock()
+							st.mgr.AddConn(r.u)
+						case "removeConn":
+							if len(own) > 0 {
+								r := own[o.b%len(own)]
+								r.removed.Store(true)
+								st.mgr.RemoveConn(r.u)
+							}
+						case "select":
+							if u, ok := st.mgr.Select(ep, false); ok && u == nil {
+								panic("select returned ok with nil upstream")
+							}
+						case "selectRemote":
+							st.mgr.Select(ep, true)
+						case "applyDelta":
+							v := nextVer(o.a, 3)
+							es := []gossip.Entry{{Key: "proxy_addr", Value: "p-" + rid, Version: v}, {Key: "admin_addr", Value: "a-" + rid, Version: v + 1}}
+							if o.b%2 == 0 {
+								es = append(es, gossip.Entry{Key: "endpoint:" + simEps[o.b%3], Value: strconv.Itoa(1 + o.b), Version: v + 2})
+							} else {
+								es = append(es, gossip.Entry{Key: "endpoint:" + simEps[o.b%3], Version: v + 2, Deleted: true})
+							}
+							b, _ := gossip.VerifEncodeDelta(rid, raddr, gossip.VerifDelta{{ID: rid, Addr: raddr, Entries: es}}, 1400)
+							_ = st.g.HandlePacket(b)
+						case "applyDigestPkt":
+							b, _ := gossip.VerifEncodeDigest(rid, raddr, o.b%2 == 0, gossip.VerifDigest{{ID: rid, Addr: raddr, Version: uint64(o.b)}, {ID: "n0", Addr: "127.0.0.1:7000", Version: 0}}, 1400)
+							_ = st.g.HandlePacket(b)
+						case "digestDelta":
+							d := st.g.State.Digest()
+							_ = st.g.State.Delta(d, o.b%2 == 0)
+						case "liveness":
+							st.g.State.UpdateLiveness(gossip.VerifSuspicionThreshold)
+						case "compact":
+							st.g.State.CompactLocal(1)
+						case "expire":
+							st.g.State.RemoveExpiredAt(time.Now().Add(time.Duration(o.b) * time.Hour))
+						case "readNodes":
+							for _, n := range st.cs.Nodes() {
+								_ = n.Endpoints[ep]
+							}
+							st.cs.Node(rid)
+						case "readLookup":
+							st.cs.LookupEndpoint(ep)
+							st.cs.AvgConns()
+						case "readMeta":
+							st.cs.NodesMetadata()
+							st.mgr.Endpoints()
+						case "readGossip":
+							st.g.State.Nodes()
+							st.g.State.Node(rid)
+							st.g.State.LocalNode()
+						case "leaveRemote":
+							v := nextVer(o.a, 1)
+							b, _ := gossip.VerifEncodeDelta(rid, raddr, gossip.VerifDelta{{ID: rid, Addr: raddr, Entries: []gossip.Entry{{Key: gossip.VerifLeftKey, Version: v, Internal: true}}}}, 1400)
+							_ = st.g.HandlePacket(b)
 						}
-					case "selectRemote":
-						st.mgr.Select(ep, true)
-					case "applyDelta":
-						v := nextVer(o.a, 3)
-						es := []gossip.Entry{{Key: "proxy_addr", Value: "p-" + rid, Version: v}, {Key: "admin_addr", Value: "a-" + rid, Version: v + 1}}
-						if o.b%2 == 0 {
-							es = append(es, gossip.Entry{Key: "endpoint:" + simEps[o.b%3], Value: strconv.Itoa(1 + o.b), Version: v + 2})
-						} else {
-							es = append(es, gossip.Entry{Key: "endpoint:" + simEps[o.b%3], Version: v + 2, Deleted: true})
-						}
-						b, _ := gossip.VerifEncodeDelta(rid, raddr, gossip.VerifDelta{{ID: rid, Addr: raddr, Entries: es}}, 1400)
-						_ = st.g.HandlePacket(b)
-					case "applyDigestPkt":
-						b, _ := gossip.VerifEncodeDigest(rid, raddr, o.b%2 == 0, gossip.VerifDigest{{ID: rid, Addr: raddr, Version: uint64(o.b)}, {ID: "n0", Addr: "127.0.0.1:7000", Version: 0}}, 1400)
-						_ = st.g.HandlePacket(b)
-					case "digestDelta":
-						d := st.g.State.Digest()
-						_ = st.g.State.Delta(d, o.b%2 == 0)
-					case "liveness":
-						st.g.State.UpdateLiveness(gossip.VerifSuspicionThreshold)
-					case "compact":
-						st.g.State.CompactLocal(1)
-					case "expire":
-						st.g.State.RemoveExpiredAt(time.Now().Add(time.Duration(o.b) * time.Hour))
-					case "readNodes":
-						for _, n := range st.cs.Nodes() {
-							_ = n.Endpoints[ep]
-						}
-						st.cs.Node(rid)
-					case "readLookup":
-						st.cs.LookupEndpoint(ep)
-						st.cs.AvgConns()
-					case "readMeta":
-						st.cs.NodesMetadata()
-						st.mgr.Endpoints()
-					case "readGossip":
-						st.g.State.Nodes()
-						st.g.State.Node(rid)
-						st.g.State.LocalNode()
-					case "leaveRemote":
-						v := nextVer(o.a, 1)
-						b, _ := gossip.VerifEncodeDelta(rid, raddr, gossip.VerifDelta{{ID: rid, Addr: raddr, Entries: []gossip.Entry{{Key: gossip.VerifLeftKey, Version: v, Internal: true}}}}, 1400)
-						_ = st.g.HandlePacket(b)
 					}
 				}
 			}(g)
 		}
 		go func() { wg.Wait(); close(done) }()
-		select {
-		case <-done:
-		case <-time.After(30 * time.Second):
-			buf := make([]byte, 1<<16)
-			n := runtime.Stack(buf, true)
-			c.Fatalf("C20: the concurrent program did not finish within 30 s (deadlock?)\n%s", buf[:n])
+		// watchdog: no operation started for 20 s while goroutines are still pending
+		for finished, last, lastAt := false, int64(-1), time.Now(); !finished; {
+			select {
+			case <-done:
+				finished = true
+			case <-time.After(250 * time.Millisecond):
+				if p := progress.Load(); p != last {
+					last, lastAt = p, time.Now()
+				} else if time.Since(lastAt) > 20*time.Second {
+					buf := make([]byte, 1<<16)
+					n := runtime.Stack(buf, true)
+					c.Fatalf("C20: the concurrent program hangs: no operation was started for 20 s while goroutines are still pending (deadlock)\n%s", buf[:n])
+				}
+			}
 		}
 		if p := panicked.Load(); p != nil {
 			c.Fatalf("C20: panic under concurrent operation: %v", p)
